@@ -164,11 +164,29 @@ def build_window(V, cfg):
         en = None
         if cfg.get('end', 'sym') == 'sym':
             en = V.int('end%d' % k, 1, cfg['dur'] + cfg['H'])
-        node.add_leak(wn, 0.001, 0.75, start_time=0, end_time=(0 if en is not None else None))
-        wn.get_control(node._leak_start_control_name)._condition._threshold = st
+        if cfg.get('user_start'):
+            # the leak is started by a user control, add_leak only schedules its end
+            node.add_leak(wn, 0.001, 0.75, start_time=None, end_time=(0 if en is not None else None))
+            from wntr.network.controls import Control, ControlAction, SimTimeCondition, Comparison
+            cnd = SimTimeCondition(wn, Comparison.eq, 0)
+            cnd._threshold = st
+            wn.add_control('user_start_%d' % k, Control(cnd, ControlAction(node, 'leak_status', True)))
+        else:
+            node.add_leak(wn, 0.001, 0.75, start_time=0, end_time=(0 if en is not None else None))
+            wn.get_control(node._leak_start_control_name)._condition._threshold = st
         if en is not None:
             wn.get_control(node._leak_end_control_name)._condition._threshold = en
         starts[nn], ends[nn] = st, en
+    if cfg.get('isolate'):
+        from wntr.network.controls import Control, ControlAction, SimTimeCondition, Comparison
+        link = wn.get_link(cfg['isolate'])
+        tc = V.int('t_close', 0, cfg['dur'])
+        to = V.int('t_open', 1, cfg['dur'] + cfg['H'])
+        for nm, tt, val in (('iso_close', tc, LinkStatus.Closed), ('iso_open', to, LinkStatus.Open)):
+            cnd = SimTimeCondition(wn, Comparison.eq, 0)
+            cnd._threshold = tt
+            wn.add_control(nm, Control(cnd, ControlAction(link, 'status', val)))
+        starts['__iso__'], ends['__iso__'] = tc, to
     return wn, starts, ends
 
 
@@ -178,6 +196,8 @@ def _ri(x):
 
 
 WIN_QUICK = [
+    dict(name='junction-userstart', mode='DD', nodes=['J2'], H=3600, dur=2 * 3600, report='ALL', user_start=True),
+    dict(name='isolated-leak', mode='DD', nodes=['J4'], H=3600, dur=3600, report='ALL', isolate='P5', end=None),
     dict(name='junction-DD', mode='DD', nodes=['J3'], H=3600, dur=2 * 3600, report='ALL'),
     dict(name='tank-DD', mode='DD', nodes=['T1'], H=3600, dur=2 * 3600, report='ALL'),
     dict(name='junction-PDD-grid', mode='PDD', nodes=['J2'], H=1800, dur=3600, report=1800),
@@ -199,10 +219,14 @@ def check_window(rep, cfg):
             for nn in cfg['nodes']:
                 if ends[nn] is not None:
                     c.assume(starts[nn] < ends[nn])
+            if cfg.get('isolate'):
+                c.assume(starts['__iso__'] < ends['__iso__'])
             res = plane.run(wn)
             # second life: remove the leaks, reset, run again
-            for nn in cfg['nodes']:
+            for k, nn in enumerate(cfg['nodes']):
                 wn.get_node(nn).remove_leak(wn)
+                if cfg.get('user_start'):
+                    wn.remove_control('user_start_%d' % k)    # the user's own start control goes with the leak
             left = [n for n, ctl in wn.controls() if 'leak' in n]
             wn.reset_initial_values()
             res2 = plane.run(wn)
@@ -224,6 +248,13 @@ def check_window(rep, cfg):
                 st, en = _ri(starts[nn]), (_ri(ends[nn]) if ends[nn] is not None else None)
                 lk = ctrlplane.series(res, 'node', 'leak_demand', nn)
                 active = [z3.And(st <= t, (t < en) if en is not None else z3.BoolVal(True)) for t in T]
+                if cfg.get('isolate'):
+                    # cut off from every source while its only feed is closed: reported leak must be zero
+                    tc, to = _ri(starts['__iso__']), _ri(ends['__iso__'])
+                    active = [z3.And(a, z3.Not(z3.And(tc <= t, t < to))) for a, t in zip(active, T)]
+                    pr = ctrlplane.series(res, 'node', 'pressure', nn)
+                    dmd = ctrlplane.series(res, 'node', 'demand', nn)
+                    claims.append(('isolated-zero/' + nn, z3.And(*[z3.Implies(z3.And(tc <= t, t < to), z3.And(real(p_) == 0, real(d_) == 0)) for t, p_, d_ in zip(T, pr, dmd)])))
                 claims.append(('leak-demand/' + nn, z3.And(*[real(v) == z3.If(a, rv(LEAK_RATE), rv(0)) for v, a in zip(lk, active)])))
                 if isinstance(cfg['report'], str):
                     need = [z3.Implies(st <= cfg['dur'], z3.Or(*[t == st for t in T]))]
@@ -267,7 +298,10 @@ def replay_window(i):
     import warnings
     cfg = i['cfg']
     V = ConcVars(i)
-    wn, starts, ends = build_window(V, cfg)
+    try:
+        wn, starts, ends = build_window(V, cfg)
+    except KeyError as ex:
+        return 'add_leak did not create the control it promises (%s: %s)' % (type(ex).__name__, ex)
     with warnings.catch_warnings():
         warnings.simplefilter('ignore')
         try:
@@ -283,6 +317,10 @@ def replay_window(i):
         pr = res.node['pressure'][nn]
         for t in times:
             active = st <= t and (en is None or t < en)
+            if cfg.get('isolate') and int(starts['__iso__']) <= t < int(ends['__iso__']):
+                if abs(lk[t]) > 1e-12 or abs(pr[t]) > 1e-12:
+                    return 'junction %s is cut off from all sources at t=%d (feed closed %d-%d) but reports leak_demand=%r pressure=%r' % (nn, t, int(starts['__iso__']), int(ends['__iso__']), lk[t], pr[t])
+                continue
             if active and pr[t] > DELTA and not close(lk[t], 0.75 * 0.001 * math.sqrt(G2 * pr[t]), 1e-4, 1e-9):
                 return 'leak at %s active at t=%d (window %r-%r) but leak_demand=%r at pressure %r' % (nn, t, st, en, lk[t], pr[t])
             if not active and abs(lk[t]) > 1e-12:
@@ -297,8 +335,10 @@ def replay_window(i):
                     sum(res.link['flowrate'][ln][t] for ln, l in wn.links() if l.start_node_name == nn)
                 if not close(res.node['demand'][nn][t], net - lk[t], 1e-6, 1e-9):
                     return 'tank %s demand %r != net inflow %r - leak %r at t=%d' % (nn, res.node['demand'][nn][t], net, lk[t], t)
-    for nn in cfg['nodes']:
+    for k, nn in enumerate(cfg['nodes']):
         wn.get_node(nn).remove_leak(wn)
+        if cfg.get('user_start'):
+            wn.remove_control('user_start_%d' % k)
     left = [n for n, c in wn.controls() if 'leak' in n]
     if left:
         return 'leak controls left after remove_leak: %r' % left
